@@ -3136,7 +3136,7 @@ func ruleGuardOwnField(id string) func(*Checker) {
 					continue
 				}
 				fld, owner := loadedFieldOwner(bo.X)
-				if fld == nil || !strings.Contains(owner, "Meta") {
+				if fld == nil || !(strings.Contains(owner, "Meta") || strings.Contains(owner, "GitCommit")) {
 					continue
 				}
 				if e != "" {
